@@ -363,7 +363,14 @@ fn block_on<T>(mut fut: Pin<Box<dyn Future<Output = T> + '_>>, deadline: std::ti
     }
 }
 
+/// Set when a configuration ran into its deadline without a decidable lost wake-up (threads
+/// blocked behind each other): the remaining configurations would only repeat the wait.
+static STRESS_STALLED: AtomicBool = AtomicBool::new(false);
+
 fn test_stress(c: &Stress) -> TestResult {
+    if STRESS_STALLED.load(Ordering::SeqCst) {
+        return Ok(Outcome::new(false).label("skipped-after-a-stalled-configuration"));
+    }
     let limit = (c.limit as usize).clamp(1, 4);
     let cfg = syncdrv::config(64, limit);
     let base = Arc::new(cfg.async_runner());
@@ -386,6 +393,7 @@ fn test_stress(c: &Stress) -> TestResult {
                             if lost {
                                 stuck.store(true, Ordering::SeqCst);
                             }
+                            STRESS_STALLED.store(true, Ordering::SeqCst);
                             return;
                         },
                     };
